@@ -1,4 +1,5 @@
 CONSTANTS
+  Variant = "base"
   NP = 1
   NA = 1
   PNames <- MC_PNames
